@@ -184,6 +184,15 @@ def _isclose(eng, a, b, **kw):
     raise OutsideSubset("isclose on non-scalars")
 
 
+def _np_isclose(eng, a, b, rtol=1e-05, atol=1e-08, **kw):
+    """numpy's documented semantics on scalars: |a - b| <= atol + rtol * |b| (real arithmetic)"""
+    if is_num(a) and is_num(b):
+        za, zb = to_real(a), to_real(b)
+        d = za - zb
+        return z3.If(d >= 0, d, -d) <= to_real(atol) + to_real(rtol) * z3.If(zb >= 0, zb, -zb)
+    raise OutsideSubset("np.isclose on non-scalars")
+
+
 def _np_array(eng, v, *a, **k):
     if isinstance(v, (tuple, VList, list)):
         return Vec(eng.iter_concrete(v))
@@ -212,7 +221,7 @@ def _fsum(eng, seq):
 NP = Ext("np", {
     "exp": x_exp, "sqrt": x_sqrt, "sum": Ext("np.sum", _np_sum), "abs": Ext("np.abs", _abs),
     "array": Ext("np.array", _np_array), "asarray": Ext("np.asarray", _asarray), "sign": Ext("np.sign", _sign),
-    "pi": PI, "cos": x_cos, "sin": x_sin,
+    "pi": PI, "cos": x_cos, "sin": x_sin, "isclose": Ext("np.isclose", _np_isclose),
 })
 
 MATH = Ext("math", {"sqrt": x_sqrt, "pi": PI, "isclose": Ext("isclose", _isclose), "exp": x_exp,
